@@ -443,12 +443,13 @@ func (t *Tmpl) has(name string) bool {
 // ---------------------------------------------------------------- interpreter
 
 type refExec struct {
-	tmpls map[string]*Tmpl
-	files map[string]*File // by namespace
-	ij    data.Map
-	st    status // worst status seen (stOK / stError / stUnspec)
-	depth int
-	steps int
+	tmpls  map[string]*Tmpl
+	files  map[string]*File // by namespace
+	ij     data.Map
+	st     status // worst status seen (stOK / stError / stUnspec)
+	depth  int
+	steps  int
+	misses []string // names looked up that no binding supplies (declared-but-unset params)
 }
 
 type rctx struct {
@@ -498,7 +499,9 @@ func envOf(fr *frame, ij data.Map) *Env {
 }
 
 func (x *refExec) eval(e *E, c *rctx) (data.Value, bool) {
-	v, st := envOf(c.fr, x.ij).Eval(e)
+	env := envOf(c.fr, x.ij)
+	env.Miss = &x.misses
+	v, st := env.Eval(e)
 	if st != stOK {
 		x.fail(st)
 		return nil, false
